@@ -193,49 +193,77 @@ Definition plain_values (vals : list str) : list rval := map (fun v => RStr (str
 (* the name an identity key travels under, when the IdP's converter knows the key *)
 Definition wire_name (c : conv) (key : str) : option str :=
   match dict_get (lower key) (c_to c) with Some (x :: n) => Some (x :: n) | _ => None end.
-(* ... and the local name under which the SP's converter for that format reports it *)
+(* the local name the first of the converters cs that knows the (lower-cased, trimmed) wire name n gives it *)
+Fixpoint first_local (cs : list conv) (n : str) : option str :=
+  match cs with
+  | [] => None
+  | c :: r => match dict_get n (c_fro c) with Some l => Some l | None => first_local r n end
+  end.
+(* ... and the local name under which the SP reports it: the SP's converters for that format, in order *)
 Definition sp_name (c : conv) (sp_acs : list conv) (key : str) : option str :=
   match wire_name c key with
-  | Some name => match acsd_get (c_nf c) sp_acs with
-                 | Some c' => dict_get (lower (strip name)) (c_fro c')
-                 | None => None
-                 end
+  | Some name => first_local (convs_for (c_nf c) sp_acs) (lower (strip name))
   | None => None
   end.
-(* eduPersonTargetedID travels as NameID elements: an EMPTY value is read back as a
-   dictionary, not as '' (known finding eptid-empty-value) *)
-Definition eptid_ok (c : conv) (sp_acs : list conv) (key : str) (vals : list str) : bool :=
+(* eduPersonTargetedID travels as NameID elements, which the reader unwraps under exactly that local
+   name: the SP's table must report the OID under the name eduPersonTargetedID (spelled so) *)
+Definition eptid_named (c : conv) (sp_acs : list conv) (key : str) : bool :=
   match wire_name c key, sp_name c sp_acs key with
-  | Some name, Some local =>
-      if str_eqb name EPTID_OID then str_eqb local EPTID && forallb (fun v => negb (is_nil v)) vals else true
+  | Some name, Some local => if str_eqb name EPTID_OID then str_eqb local EPTID else true
   | _, _ => true
   end.
 
+Lemma first_known_local cs a :
+  first_known cs a =
+  option_map (fun l => (l, map (read_value l) (at_values a))) (first_local cs (lower (strip (at_name a)))).
+Proof.
+  induction cs as [|c r IH]; [reflexivity|]. cbn [first_known first_local]. unfold ava_from.
+  destruct (dict_get (lower (strip (at_name a))) (c_fro c)); [reflexivity|exact IH].
+Qed.
+
+Lemma first_local_nonempty cs n l : first_local cs n = Some l -> cs <> [].
+Proof. destruct cs; [discriminate|discriminate]. Qed.
+
+(* read_attr in terms of the converters for the format *)
+Lemma read_attr_known sp_acs allow a l :
+  first_local (convs_for (parsed_format a) sp_acs) (lower (strip (at_name a))) = Some l ->
+  read_attr sp_acs allow a = Some (l, map (read_value l) (at_values a)).
+Proof.
+  intros H. unfold read_attr. pose proof (first_known_local (convs_for (parsed_format a) sp_acs) a) as K.
+  rewrite H in K. cbn [option_map] in K.
+  destruct (convs_for (parsed_format a) sp_acs) as [|c0 r]; [discriminate|]. now rewrite K.
+Qed.
+
+Lemma read_values_text l vals : map (read_value l) (map AText vals) = map (fun v => RStr (strip v)) vals.
+Proof. now rewrite map_map. Qed.
+Lemma read_values_nameid fmt vals : map (read_value EPTID) (map (ANameID fmt) vals) = map (fun v => RStr (strip v)) vals.
+Proof.
+  rewrite map_map. apply map_ext. intros v. cbn [read_value].
+  assert (str_eqb EPTID EPTID = true) as -> by (vm_compute; reflexivity). reflexivity.
+Qed.
+
 Lemma deliver_mapped c sp_acs allow key vals local :
-  sp_name c sp_acs key = Some local -> eptid_ok c sp_acs key vals = true ->
+  sp_name c sp_acs key = Some local -> eptid_named c sp_acs key = true ->
   read_attr sp_acs allow (to_attr c (key, vals)) = Some (local, plain_values vals).
 Proof.
-  unfold eptid_ok, sp_name, wire_name, to_attr. cbn [fst snd].
+  unfold eptid_named, sp_name, wire_name, to_attr. cbn [fst snd].
   destruct (dict_get (lower key) (c_to c)) as [[|x n]|] eqn:Ew; try discriminate.
-  destruct (acsd_get (c_nf c) sp_acs) as [c'|] eqn:Ea; [|discriminate].
   intros Hl He. rewrite Hl in He.
-  unfold read_attr, parsed_format. cbn [at_format]. rewrite Ea.
-  unfold ava_from. cbn [at_name at_values]. rewrite Hl. f_equal. f_equal.
+  rewrite (read_attr_known sp_acs allow _ local); [|exact Hl].
+  cbn [at_values]. f_equal. f_equal. unfold plain_values.
   destruct (str_eqb (x :: n) EPTID_OID).
-  - apply andb_true_iff in He as [Hloc Hne]. unfold plain_values. rewrite map_map.
-    induction vals as [|v vs IH]; [reflexivity|]. cbn [forallb] in Hne. apply andb_true_iff in Hne as [H1 H2].
-    cbn [map]. rewrite (IH H2). f_equal. cbn [read_value]. destruct v as [|v0 v']; [discriminate|]. now rewrite Hloc.
-  - unfold plain_values. rewrite map_map. reflexivity.
+  - apply str_eqb_eq in He. subst local. apply read_values_nameid.
+  - apply read_values_text.
 Qed.
 
 Lemma deliver_unmapped c sp_acs allow key vals : wire_name c key = None ->
   read_attr sp_acs allow (to_attr c (key, vals)) =
-  match acsd_get NAME_FORMAT_URI sp_acs with
-  | Some c' => match dict_get (lower (strip key)) (c_fro c') with
-               | Some local => Some (local, plain_values vals)
-               | None => if allow then Some (strip key, plain_values vals) else None
-               end
-  | None => if str_eqb NAME_FORMAT_URI NAME_FORMAT_UNSPECIFIED || allow then Some (strip key, plain_values vals) else None
+  match convs_for NAME_FORMAT_URI sp_acs with
+  | [] => if str_eqb NAME_FORMAT_URI NAME_FORMAT_UNSPECIFIED || allow then Some (strip key, plain_values vals) else None
+  | cs => match first_local cs (lower (strip key)) with
+          | Some local => Some (local, plain_values vals)
+          | None => if allow then Some (strip key, plain_values vals) else None
+          end
   end.
 Proof.
   unfold wire_name, to_attr. cbn [fst snd]. intros Hw.
@@ -244,9 +272,10 @@ Proof.
   assert (forall loc l, map (read_value loc) (map AText l) = plain_values l) as L2
       by (intros loc l; unfold plain_values; now rewrite map_map).
   destruct (dict_get (lower key) (c_to c)) as [[|x n]|]; try discriminate;
-    unfold read_attr, parsed_format, ava_from, lcd_ava_from; cbn [at_format at_name at_values];
-    (destruct (acsd_get NAME_FORMAT_URI sp_acs) as [c'|]; [destruct (dict_get (lower (strip key)) (c_fro c'))|]);
-    rewrite ?L1, ?L2; reflexivity.
+    unfold read_attr, parsed_format, lcd_ava_from; cbn [at_format at_name at_values];
+    (destruct (convs_for NAME_FORMAT_URI sp_acs) as [|c0 r]; [rewrite ?L1; reflexivity|]);
+    rewrite first_known_local; cbn [at_name at_values];
+    (destruct (first_local (c0 :: r) (lower (strip key))); cbn [option_map]; rewrite ?L1, ?L2; reflexivity).
 Qed.
 
 (* the accumulated dictionary *)
@@ -260,7 +289,7 @@ Qed.
 
 Lemma list_to_local_from_fresh c sp_acs allow : forall ident locals d,
   map (fun kv => sp_name c sp_acs (fst kv)) ident = map Some locals ->
-  Forall (fun kv => eptid_ok c sp_acs (fst kv) (snd kv) = true) ident ->
+  Forall (fun kv => eptid_named c sp_acs (fst kv) = true) ident ->
   NoDup locals -> (forall kv, In kv d -> ~ In (fst kv) locals) ->
   list_to_local_from sp_acs allow (map (to_attr c) ident) d = d ++ combine locals (map (fun kv => plain_values (snd kv)) ident).
 Proof.
@@ -282,7 +311,7 @@ Qed.
    the asserted attributes, under the documented names, values trimmed *)
 Theorem attributes_exact c sp_acs allow ident locals :
   map (fun kv => sp_name c sp_acs (fst kv)) ident = map Some locals ->
-  Forall (fun kv => eptid_ok c sp_acs (fst kv) (snd kv) = true) ident ->
+  Forall (fun kv => eptid_named c sp_acs (fst kv) = true) ident ->
   NoDup locals ->
   list_to_local sp_acs allow (map (to_attr c) ident) = combine locals (map (fun kv => plain_values (snd kv)) ident).
 Proof.
@@ -331,6 +360,56 @@ Proof.
     unfold alias_rows. apply in_flat_map. exists (lower key). split; [exact Hin|]. rewrite E.
     destruct (str_eqb_spec (lower l) (lower key)); [contradiction|now left].
   - exfalso. apply Hnl. unfold lost_rows. apply filter_In. split; [exact Hin|]. now rewrite E.
+Qed.
+
+(* eptid_rows_ok decides eptid_named for every spelling of every key *)
+Lemma dict_get_in k l v : dict_get k l = Some v -> In k (map fst l).
+Proof.
+  induction l as [|[k' v'] l IH]; [discriminate|]. cbn [dict_get map fst].
+  destruct (dict_get k l) as [w|]; [intros E; right; exact (IH E)|].
+  destruct (str_eqb_spec k k') as [->|_]; [now left|discriminate].
+Qed.
+Lemma wire_name_lower c key : wire_name c (lower key) = wire_name c key.
+Proof. unfold wire_name. now rewrite lower_idem. Qed.
+Lemma wire_name_in c key n : wire_name c key = Some n -> In (lower key) (table_keys c).
+Proof.
+  unfold wire_name, table_keys. destruct (dict_get (lower key) (c_to c)) as [v|] eqn:E; [|discriminate].
+  intros _. exact (dict_get_in _ _ _ E).
+Qed.
+Theorem eptid_rows_named c sp_acs : eptid_rows_ok c sp_acs = true -> forall key, eptid_named c sp_acs key = true.
+Proof.
+  intros H key. unfold eptid_named. rewrite <- (wire_name_lower c key), <- (sp_name_lower c sp_acs key).
+  destruct (wire_name c (lower key)) as [n|] eqn:Ew; [|reflexivity].
+  unfold eptid_rows_ok in H. rewrite forallb_forall in H.
+  assert (In (lower key) (table_keys c)) as Hin by (rewrite <- lower_idem; exact (wire_name_in c (lower key) n Ew)).
+  specialize (H _ Hin). now rewrite Ew in H.
+Qed.
+
+(* a table without lost rows: an identity over its keys (any spelling) is reported name by name,
+   each under its own name (up to letter case) or under the alias listed for it *)
+Definition reported_as (c : conv) (sp_acs : list conv) (kv : str * list str) (l : str) : Prop :=
+  lower l = lower (fst kv) \/ In (lower (fst kv), l) (alias_rows c sp_acs).
+Theorem table_identity_reported c sp_acs : lost_rows c sp_acs = [] -> eptid_rows_ok c sp_acs = true ->
+  forall ident : identity, Forall (fun kv => In (lower (fst kv)) (table_keys c)) ident ->
+  exists locals, map (fun kv => sp_name c sp_acs (fst kv)) ident = map Some locals /\
+                 Forall2 (reported_as c sp_acs) ident locals /\
+                 Forall (fun kv => eptid_named c sp_acs (fst kv) = true) ident.
+Proof.
+  intros Hl He ident. induction ident as [|kv ident IH]; intros H.
+  - exists []. repeat split; constructor.
+  - inversion H as [|? ? H1 H2]; subst. destruct (IH H2) as (locals & E & R & N).
+    destruct (table_key_reported c sp_acs (fst kv) H1) as (l & El & Rl); [rewrite Hl; intros []|].
+    exists (l :: locals). cbn [map]. rewrite El, E. split; [reflexivity|]. split.
+    + constructor; [exact Rl|exact R].
+    + constructor; [apply eptid_rows_named, He|exact N].
+Qed.
+
+(* the first converter of a format is one of the converters, and the first of its own format *)
+Lemma first_conv_in acs nf c : first_conv acs nf = Some c -> In c acs /\ first_conv acs (c_nf c) = Some c.
+Proof.
+  intros H. pose proof (first_conv_nf acs nf c H) as E. rewrite E. split; [|exact H].
+  clear E. induction acs as [|c0 r IH]; [discriminate|]. cbn [first_conv] in H.
+  destruct (str_eqb (c_nf c0) nf); [injection H as <-; now left|right; now apply IH].
 Qed.
 
 (* ------------------------------------------------------------------ *)
